@@ -11,7 +11,9 @@ def sh(cmd, cwd=wt, env=None, timeout=3000):
     p = subprocess.run(cmd, shell=True, cwd=cwd, capture_output=True, text=True, env=env, timeout=timeout)
     return p.returncode, p.stdout + p.stderr
 meta = {"name": name, "ran": []}
-sh("git checkout -- . && git clean -fdq src")
+head = subprocess.run(["git", "-C", "/repo", "rev-parse", "HEAD"], capture_output=True, text=True).stdout.strip()
+sh("git checkout -- . && git clean -fdq src && git checkout -q --detach %s" % head)
+meta["base"] = head
 rc0, o0 = sh("bash %s/demo.sh" % sd); meta["demo_on_head_rc"] = rc0
 rca, oa = sh("git apply %s/patch.diff" % sd); meta["apply_rc"] = rca
 rct, ot = sh("cargo test --offline 2>&1 | grep -E '^test result' "); meta["tests_with_patch"] = ot.strip().splitlines()
